@@ -176,7 +176,7 @@ var plans = map[string]Plan{
 		Assumptions: []string{
 			"the real bondgo CLI (built from /repo with -tags verif) is run as a child process under a hard 10 s deadline for three schedule plans (GOMAXPROCS x VERIF_BONDGO_SCHED) per program; a hang is classified from a goroutine dump",
 			"semantic verdicts are taken on the Go simulator only when the emitted machine uses faithfully simulated opcodes (programs that use RAM variables compile to r2m/m2r: labelled needs-hdl, termination and determinism only)",
-			"-mpm semantics are judged for argument-free go f() workers only; channel programs get termination and determinism only",
+			"-mpm programs with channels (workers started with go, helpers called inline with a channel argument) are judged semantically on harness/c12 SimulateBM: every processor stepped by the real simulator, the channel opcodes wwr/wrd/chw (TODO bodies in the simulator) given the unbuffered-rendezvous meaning of their descriptions and of the machine's Shared_links wiring",
 			"inputs are constants (i2r has no handshake); output identity is the declaration order of bondgo.Output variables",
 		},
 	},
